@@ -1030,7 +1030,11 @@ func c35Gen(rt *rapid.T) c35Input {
 					}
 				}
 				if rapid.IntRange(0, 3).Draw(rt, "faultOnBad") == 0 {
-					if r, ok := freeKey(); ok {
+					if nC := len(blk.Culprits); nC > 0 && blk.Culprits[nC-1].Target == ti && rapid.Bool().Draw(rt, "faultByCulprit") {
+						// the same validator guaranteed the bad report AND vouched for it: one key in
+						// both lists of one block (the offender set is a set)
+						blk.Faults = append(blk.Faults, c35Fault{Target: ti, Vote: true, Key: blk.Culprits[nC-1].Key})
+					} else if r, ok := freeKey(); ok {
 						blk.Faults = append(blk.Faults, c35Fault{Target: ti, Vote: true, Key: r.r})
 					}
 				}
